@@ -53,20 +53,20 @@ PLANS = {
             "thorough": [("sched", 5000, 70), ("mixed", 2000, 80)]},
     "C11": {"quick": [("sched", 300, 50), ("mixed", 100, 60)],
             "thorough": [("sched", 5000, 70), ("mixed", 2000, 80)]},
-    "C12": {"quick": [("capacity", 300, 70), ("mixed", 100, 60)],
-            "thorough": [("capacity", 5000, 200), ("mixed", 2000, 80)]},
-    "C17": {"quick": [("mixed", 250, 60), ("st", 120, 60), ("lt", 250, 70)],
-            "thorough": [("mixed", 4000, 80), ("st", 2000, 80), ("lt", 2000, 80)]},
+    "C12": {"quick": [("capacity", 300, 70), ("mixed", 100, 60), ("wide", 12, 0)],
+            "thorough": [("capacity", 5000, 200), ("mixed", 2000, 80), ("wide", 300, 0)]},
+    "C17": {"quick": [("mixed", 250, 60), ("st", 120, 60), ("lt", 250, 70), ("wide", 20, 0)],
+            "thorough": [("mixed", 4000, 80), ("st", 2000, 80), ("lt", 2000, 80), ("wide", 400, 0)]},
     "C10": {"quick": [("mixed", 300, 60), ("st", 100, 60)],
             "thorough": [("mixed", 4000, 80), ("st", 2000, 80)]},
-    "C07": {"quick": [("st", 400, 60)],
-            "thorough": [("st", 6000, 80)]},
+    "C07": {"quick": [("st", 400, 60), ("wide", 20, 0)],
+            "thorough": [("st", 6000, 80), ("wide", 400, 0)]},
     "C08": {"quick": [("lt", 500, 70)],
             "thorough": [("lt", 8000, 90)]},
     "C13": {"quick": [("mixed", 250, 60), ("lt", 200, 60), ("st", 100, 60)],
             "thorough": [("mixed", 4000, 80), ("lt", 3000, 80), ("st", 2000, 80)]},
-    "C15": {"quick": [("rtt", 150, 120), ("nomech", 100, 60)],
-            "thorough": [("rtt", 2500, 300), ("nomech", 1500, 80)]},
+    "C15": {"quick": [("rtt", 150, 120), ("nomech", 100, 60), ("bigrtt", 25, 0)],
+            "thorough": [("rtt", 2500, 300), ("nomech", 1500, 80), ("bigrtt", 600, 0)]},
 }
 
 LEVEL_NOTE = {
@@ -470,6 +470,10 @@ def run(prop, tier, seed, replay=None, extra_cov=None):
         recs = [repo_tests(wd)]
         states = trans = 1
         minfo = []
+    elif replay and json.load(open(replay)).get("kind") == "stale-probe":
+        recs = []
+        states = trans = 1
+        minfo = []
     elif replay:
         rep = json.load(open(replay))
         sf = os.path.join(wd, "replay-steps.ndjson")
@@ -529,13 +533,36 @@ def run(prop, tier, seed, replay=None, extra_cov=None):
                 known_hits.append(kn["key"])
                 continue
             violations.append((k, recdir, trn, obs))
+    probe_stats = {}
+    if prop == "C15" and (not replay or json.load(open(replay)).get("kind") == "stale-probe"):
+        # ten-minute rule between two ticks of the trace clock (nanosecond offsets around 600 s)
+        out = os.path.join(wd, "rec-staleprobe")
+        sh("%s/drive-client staleprobe --out %s" % (bindir, out), timeout=600)
+        tf = os.path.join(out, "trace.ndjson")
+        pbad, _, ptotal, _ = tlc_trace("TraceStale.tla", "TraceStale.cfg", tf, wd, timeout=600)
+        plines = [json.loads(l) for l in open(tf)]
+        for (p, line, trn, info) in pbad[:3]:
+            o = plines[line - 1]
+            os.makedirs(REPLAYS, exist_ok=True)
+            path = replay or os.path.join(REPLAYS, "C15-staleprobe-%s.json" % digest([o["cfg_rto"], o["resp_ms"], o["dn"]]))
+            if not replay:
+                json.dump({"property": "C15", "kind": "stale-probe", "record": o,
+                           "note": "second request 600 s %+d ns after the first; it started with RTO %s us "
+                                   "(configured %s, estimate %s)" % (o["dn"], o["used_rto"], o["cfg_rto"], o["est_rto"])},
+                          open(path, "w"), indent=1)
+            print("VIOLATION property=C15 replay=%s" % path)
+            violations.append((0, out, trn, {"op": "stale", "t": 0, "res": "", "ev": []}))
+        probe_stats = {"records": ptotal, "rejected": len(pbad),
+                       "rule": "second request 600 s + d ns after the first, d in {-1 ms .. +1 ms incl. +-1, 400, 999 ns}: "
+                               "configured RTO iff d > 0 (TraceStale.tla)"}
+        total_lines += ptotal
     if not samples:
         samples = [["(no non-trivial trace short enough to print)"]]
     for k in sorted(set(known_hits)):
         kn = next(x for x in load_known()["findings"] if x["key"] == k)
         print("KNOWN-FINDING: property=%s %s" % (prop, kn["what"]))
     violations.sort(key=lambda v: v[0])
-    for k, recdir, trn, obs in violations[:3]:
+    for k, recdir, trn, obs in [v for v in violations if v[3].get("op") != "stale"][:3]:
         path = replay if replay else make_replay(prop, seed, recdir, trn, k, obs)
         print("VIOLATION property=%s replay=%s" % (prop, path))
         log("  rejected observation: op=%s t=%s res=%s ev=%s" % (
@@ -560,6 +587,7 @@ def run(prop, tier, seed, replay=None, extra_cov=None):
             "known_findings_hit": sorted(set(known_hits)),
             "spec_to_code_replays": mbt_stats,
             "repository_tests_validated": repo_stats,
+            **({"stale_threshold_probe": probe_stats} if probe_stats else {}),
             "exhaustive": False,
             **(extra_cov or {}),
         }, time.time() - t0, len(violations),
